@@ -15,7 +15,7 @@ from explore import expect, conc, Violation
 
 PROPERTY = 'C15'
 CICADA = os.path.join(hsupport.VERIF, 'build/bin/debug/cicada')
-BUDGET = {'quick': 900, 'thorough': 3000}
+BUDGET = {'quick': 900, 'thorough': 1500}
 BOUNDS = {'quick': dict(arg_len=1, max_args=2, tok_segs=3), 'thorough': dict(arg_len=2, max_args=3, tok_segs=4)}
 ASSUMPTIONS = [
     'scenario families are enumerated (positional parameters in commands / conditions / for lists, functions in both header spellings with names containing - and _, status chains, set -e and exit N at every position incl. nested blocks and function bodies, source chains of depth <= 3); the argument texts (<= arg_len characters each, 0..max_args arguments) and every exit status are solver variables',
@@ -131,6 +131,8 @@ def scenarios(tier):
 TOKEN_SEGS = ['lit', '$1', '${1}', '$2', '$@', '${@}', '$0', '$12', '${3}']
 def instances(tier, seed):
     out = [dict(s, kind='script') for s in scenarios(tier)]
+    for o in out:
+        if o['nargs'] >= 2 or o['name'].startswith('pos-quoted'): o['_split'] = 5      # symbolic argument characters through the tokenizer: share the tree
     b = BOUNDS[tier]
     for n in range(1, b['tok_segs'] + 1):
         for segs in itertools.product(TOKEN_SEGS, repeat=n):
@@ -468,7 +470,8 @@ def run_instance(prog, inst, tier, seed, deadline):
         d = pack(l, I) if hasattr(I, 'h_texts') else {}
         d.update(label='crash', kind='script', scenario=inst['name'], key='crash:%s:%s' % (inst['name'].split('/')[0], str(l.msg)[:40]))
         return d
-    return hsupport.run_paths(prog, script_body(inst, b), deadline, on_ok=on_ok, on_violation=on_violation, on_panic=on_panic, step_budget=3_000_000)
+    return hsupport.run_paths(prog, script_body(inst, b), deadline, on_ok=on_ok, on_violation=on_violation, on_panic=on_panic, step_budget=3_000_000,
+                              prefix=inst.get('_prefix'), split_depth=inst.get('_split'))
 
 def replay(v):
     if v['kind'] in ('token', 'tokens'):
